@@ -12,7 +12,7 @@ const P = "C01"
 
 func main() {
 	r := evid.New(P, "exploration")
-	r.Rule("random chain-consistent event histories over a lazily generated transaction universe (chains, fan-in/out, multi-edges, conflict groups, coinbases, several credits per tx, gaps between blocks): see / mine (known, brand-new, confirmed double spend) / disconnect-to-height (incl. no-op, everything, gap heights, repeated) / abandon / repeated delivery / repeated credit marking / restart; after EVERY event and after every transaction of a block the real store is queried (Balance over a minconf x syncHeight grid, UnspentOutputs, OutputsToWatch, UnminedTxHashes) and compared with a ledger model that recomputes everything from facts. A history is non-trivial if it contains at least one disconnect or conflict removal; distinct = distinct event-kind sequences.")
+	r.Rule("random chain-consistent event histories over a lazily generated transaction universe (chains, fan-in/out, multi-edges, conflict groups, coinbases, several credits per tx, gaps between blocks): see / mine (known, brand-new, confirmed double spend) / disconnect-to-height (incl. no-op, everything, gap heights, repeated) / abandon / repeated delivery / repeated credit marking / restart; a second phase interleaves lease / release / clock-advance / expiry-sweep events (fake clock through the wtxmgr hook) for the 'not leased' clause; after EVERY event and after every transaction of a block the real store is queried (Balance over a minconf x syncHeight grid, UnspentOutputs, OutputsToWatch, UnminedTxHashes) and compared with a ledger model that recomputes everything from facts. A history is non-trivial if it contains at least one disconnect or conflict removal; distinct = distinct event-kind sequences.")
 	r.Trusted("btcd wire/chainhash (tx hashing)", "walletdb/bdb as the storage engine (judged separately by C11)")
 	r.Assume("credited outputs have positive value (property wording; zero-value credits are DESIGN O-6)", "sync heights below the highest mined block are never queried (documented caveat of Balance)", "histories are chain-consistent: no child confirmed before its parent, no two confirmed conflicting transactions, no unconfirmed transaction conflicting with the chain")
 	n := r.N(150, 3000)
@@ -25,6 +25,14 @@ func main() {
 		res := ledger.RunHistory(c, cs, dir)
 		ledger.Record(r, res, "history", cs, res.Stats["ev:disconnect"] > 0 || res.Stats["conflict-removed-txs"] > 0)
 	})
+	// "... that are not leased": the same histories with lease / release / clock /
+	// sweep events interleaved (fake clock through the wtxmgr hook)
+	lcfg := ledger.Config{MinSteps: 20, MaxSteps: r.N(80, 160), Balance: true, Leases: true, Reopen: true}
+	r.Parallel("leased", r.N(50, 1000), evid.Workers(), func(i int, cs int64) {
+		res := ledger.RunHistory(lcfg, cs, dir)
+		ledger.Record(r, res, "leased", cs, res.Stats["ev:lease"] > 0)
+	})
+	r.Require("ev:lease", 50)
 	r.Require("events", 1000)
 	r.Require("balance-queries", 10000)
 	r.Require("ev:disconnect", 50)
